@@ -340,6 +340,10 @@ func (x *Exec) applyContract(st *State, key string, fc *FuncContract, sig *types
 		}
 	}
 	pre := st.clone()
+	freshBase := app("+", "fresh0", fmt.Sprint(st.nobj))
+	if st.nobjBase != "" {
+		freshBase = app("+", st.nobjBase, fmt.Sprint(st.nobj))
+	}
 	// frame
 	x.havocModifies(st, env, fc, key)
 	// results
@@ -378,6 +382,7 @@ func (x *Exec) applyContract(st *State, key string, fc *FuncContract, sig *types
 	}
 	env2 := x.calleeEnv(st, key, sig, recv, args, fn)
 	env2.old = pre
+	env2.freshBase = freshBase
 	bindResults(env2, sig, rv)
 	for _, c := range fc.Ensures {
 		if !x.activeClause(c) {
@@ -534,7 +539,7 @@ func (x *Exec) havocAt(st *State, a string, t types.Type) {
 
 // calleeEffects: which heap components a call may write (for loop havoc).
 func (x *Exec) calleeEffects(st *State, c *ssa.CallCommon) effects {
-	eff := effects{comps: map[string]bool{}}
+	eff := effects{comps: map[string]bool{}, tags: map[string][]int{}, untagged: map[string]bool{}}
 	if _, ok := c.Value.(*ssa.Builtin); ok {
 		b := c.Value.(*ssa.Builtin)
 		switch b.Name() {
@@ -542,6 +547,9 @@ func (x *Exec) calleeEffects(st *State, c *ssa.CallCommon) effects {
 			if len(c.Args) > 0 {
 				if sl, ok := c.Args[0].Type().Underlying().(*types.Slice); ok {
 					x.compsOfType(sl.Elem(), eff.comps)
+					for cn := range eff.comps {
+						eff.untagged[cn] = true
+					}
 				}
 			}
 		case "append":
@@ -551,6 +559,8 @@ func (x *Exec) calleeEffects(st *State, c *ssa.CallCommon) effects {
 				d, v := mapCompNames(x.w, mt)
 				eff.comps[d] = true
 				eff.comps[v] = true
+				eff.untagged[d] = true
+				eff.untagged[v] = true
 			}
 		}
 		return eff
@@ -584,9 +594,37 @@ func (x *Exec) calleeEffects(st *State, c *ssa.CallCommon) effects {
 				d, v := mapCompNames(x.w, mt)
 				eff.comps[d] = true
 				eff.comps[v] = true
+				eff.untagged[d] = true
+				eff.untagged[v] = true
 				continue
 			}
-			x.compsOfType(t, eff.comps)
+			cs := map[string]bool{}
+			x.compsOfType(t, cs)
+			// a write to x.f through a pointer only touches cells whose last path step is field f: remember the tag
+			tag := -1
+			if cf, ok := m.(*CField); ok {
+				if bt := x.lvalueType(fn, sig, c, cf.X); bt != nil {
+					if pt, isPtr := bt.Underlying().(*types.Pointer); isPtr {
+						bt = pt.Elem()
+					}
+					if st, isStruct := bt.Underlying().(*types.Struct); isStruct && !isStructT(t) {
+						si := x.w.structInfo(bt)
+						for i := 0; i < st.NumFields(); i++ {
+							if st.Field(i).Name() == cf.Name {
+								tag = si.Tags[i]
+							}
+						}
+					}
+				}
+			}
+			for cn := range cs {
+				eff.comps[cn] = true
+				if tag >= 0 {
+					eff.tags[cn] = append(eff.tags[cn], tag)
+				} else {
+					eff.untagged[cn] = true
+				}
+			}
 		}
 		return eff
 	}
@@ -630,12 +668,19 @@ func (x *Exec) scanEffects(fn *ssa.Function, eff *effects, seen map[*ssa.Functio
 				if al, ok := root.(*ssa.Alloc); ok && !al.Heap && localUses(al) {
 					continue
 				}
-				x.compsOfType(n.Val.Type(), eff.comps)
+				cs := map[string]bool{}
+				x.compsOfType(n.Val.Type(), cs)
+				for cn := range cs {
+					eff.comps[cn] = true
+					eff.untagged[cn] = true
+				}
 			case *ssa.MapUpdate:
 				mt := n.Map.Type().Underlying().(*types.Map)
 				d, v := mapCompNames(x.w, mt)
 				eff.comps[d] = true
 				eff.comps[v] = true
+				eff.untagged[d] = true
+				eff.untagged[v] = true
 			case ssa.CallInstruction:
 				sub := x.calleeEffects(nil, n.Common())
 				if sub.all {
@@ -643,6 +688,10 @@ func (x *Exec) scanEffects(fn *ssa.Function, eff *effects, seen map[*ssa.Functio
 				}
 				for c := range sub.comps {
 					eff.comps[c] = true
+					if sub.untagged[c] {
+						eff.untagged[c] = true
+					}
+					eff.tags[c] = append(eff.tags[c], sub.tags[c]...)
 				}
 			}
 		}
